@@ -517,6 +517,36 @@ def c01_6(c: Ctx) -> None:
                 c.fail(cu, f'calls {name}: {q.stmt_text(q.stmt_of(call), 80)}', f'{name} is called from {cu.qualname}, outside the delivery chain', node=call)
 
 
+@ob('C01.7', 'WMW', 'the handler registry is mutated only by on() (append), by expect() removing its own temporary handler, and by stop(clear=True); nothing else '
+    'unsubscribes or re-orders handlers (a handler removed behind the user\'s back is a skipped delivery)')
+def c01_7(c: Ctx) -> None:
+    ws = [w for w in c.cg.all_writes('handlers') if w.unit.module in (SVC, MOD)]
+    c.floor(len(ws), 3, 'mutations of the handler registry')
+    on = c.unit(SVC, 'EventBus.on')
+    ex = c.unit(SVC, 'EventBus.expect')
+    stop = c.unit(SVC, 'EventBus.stop')
+    init = c.unit(SVC, 'EventBus.__init__')
+    temp = [v.name for v in c.prog.nested(ex) if not v.is_async]
+    for w in ws:
+        okw = False
+        why = ''
+        if w.unit.key == init.key and w.how == 'assign':
+            okw, why = True, 'registry created in __init__'
+        elif w.unit.key == on.key and w.how == 'append@item':
+            okw, why = True, 'on() appends the handler'
+        elif w.unit.key == ex.key and w.how == 'remove@item' and isinstance(w.node, ast.Call) and w.node.args and U(w.node.args[0]) in temp:
+            okw, why = True, 'expect() removes its own temporary handler'
+        elif w.unit.key == stop.key and w.how == 'clear':
+            g = c.cfg(stop)
+            facts = Facts(lambda a: a == 'clear', cg=c.cg, unit=stop)
+            okw = all(q.guard_search(g, n, 'clear', facts) is None for n in g.nodes_of(q.stmt_of(w.node)))
+            why = 'stop(clear=True) clears the registry'
+        if okw:
+            c.ok(where(w.unit, w.node), why)
+        else:
+            c.fail(w.unit, f'mutates the handler registry ({w.how}): {U(w.node)[:70]}', f'handlers are removed / replaced / re-ordered in {w.unit.qualname}: a registered handler can be skipped for later events', node=w.node)
+
+
 from .common import await_coro  # noqa: E402
 
 OBLIGATIONS = ob.obs
